@@ -109,6 +109,12 @@ func c14a(c *Ctx) {
 	conflictOK := false
 	for _, r := range f.Returns() {
 		e := f.errResultExpr(r.X.(*ast.ReturnStmt))
+		if e == nil {
+			continue
+		}
+		if v := f.Resolve(e); v.Idx < 0 {
+			e = v.E // `err = &conflictError{..}; return err`
+		}
 		if u, ok := ast.Unparen(e).(*ast.UnaryExpr); ok {
 			if cl, ok := ast.Unparen(u.X).(*ast.CompositeLit); ok {
 				if tv, has := info.Types[cl]; has && namedIs(tv.Type, pkgWitness, "conflictError") && len(cl.Elts) == 1 {
@@ -681,6 +687,12 @@ func (c *Ctx) returnsSentinelOn(inst string, f *Func, edges map[Edge]bool, senti
 		for _, r := range g.ReturnsFrom(EdgeStart(e), Cut{}) {
 			n++
 			ex := f.errResultExpr(r)
+			if ex != nil {
+				// `err = errX; return err`: the one definition that reaches the return
+				if v := f.Resolve(ex); v.Idx < 0 {
+					ex = v.E
+				}
+			}
 			if ex == nil || !isPkgVar(f.Info(), ex, pkgWitness, sentinel) {
 				c.Bad(inst, f.Pos(r), what+" is reported with "+exprStringOrNil(ex)+" instead of "+sentinel)
 				return
